@@ -10,26 +10,26 @@ Theorem noqa_local : forall (c1 c2 : text) (line : nat) (code : text),
 Proof. exact noqa_is_local. Qed.
 Print Assumptions noqa_local.
 
-(* `# noqa: A, B`: exactly the listed tokens *)
-Theorem noqa_some : forall (line codes code : text),
-  search (rstrip line) = Some (Some codes) -> ignored_on_line line code = existsb (text_eqb code) (split_sp codes).
-Proof. exact noqa_codes_exact. Qed.
-Print Assumptions noqa_some.
+(* a diagnostic is suppressed exactly when one of the comments of its line, from the first hash-noqa
+   with no quote after it on, is a bare noqa or a noqa that lists its code *)
+Theorem noqa_exact : forall (line code : text),
+  ignored_on_line line code = true <->
+  exists tail c, search (rstrip line) = Some tail /\ In c (split_hash tail) /\
+    (strip c = noqa_word \/ exists codes, strip c = noqa_colon ++ codes /\ In code (split_sp codes)).
+Proof. exact ignored_iff. Qed.
+Print Assumptions noqa_exact.
 
-(* bare `# noqa`: everything on the line *)
-Theorem noqa_all : forall (line code : text), search (rstrip line) = Some None -> ignored_on_line line code = true.
-Proof. exact noqa_bare_all. Qed.
-Print Assumptions noqa_all.
-
-(* appending `  # noqa` to any line of code that has no hash character removes every
-   diagnostic on it; appending `  # noqa: A, B, ...` removes exactly the listed codes *)
-Theorem noqa_all_appended : forall (L code : text), no_hash L = true -> ignored_on_line (L ++ suffix_all) code = true.
+(* appending `  # noqa` to ANY line -- whatever code, quotes, hash signs, earlier comments or earlier
+   noqa comments it holds -- removes every diagnostic on it *)
+Theorem noqa_all_appended : forall (L code : text), ignored_on_line (L ++ suffix_all) code = true.
 Proof. exact noqa_all_appended_all. Qed.
 Print Assumptions noqa_all_appended.
 
+(* appending `  # noqa: A, B, ...` to ANY line removes exactly the listed codes and leaves every other
+   verdict on that line as it was (what an earlier comment suppressed stays suppressed) *)
 Theorem noqa_some_appended : forall (L code : text) (cs : list text),
-  no_hash L = true -> tok code = true -> forallb tok cs = true -> cs <> [] ->
-  ignored_on_line (L ++ suffix_some ++ join_cs cs) code = existsb (text_eqb code) cs.
+  tok code = true -> forallb tok cs = true -> cs <> [] ->
+  ignored_on_line (L ++ suffix_some ++ join_cs cs) code = (ignored_on_line L code || existsb (text_eqb code) cs)%bool.
 Proof. exact noqa_some_appended_all. Qed.
 Print Assumptions noqa_some_appended.
 
@@ -44,6 +44,15 @@ Example exotic_separators_do_not_split :
   /\ source_lines [97; 13; 10; 98; 13; 99]%N = [[97]; [98]; [99]]%N.
 Proof. split; reflexivity. Qed.
 Print Assumptions exotic_separators_do_not_split.
+
+(* lines that already carry a noqa comment for someone else: `x  # noqa: E501  # noqa` and
+   `x  # noqa  # noqa: E501` (the shapes a leftmost-match-only reading gets wrong) *)
+Example several_comments :
+  ignored_on_line [120; 32; 32; 35; 32; 110; 111; 113; 97; 58; 32; 69; 53; 48; 49; 32; 32; 35; 32; 110; 111; 113; 97]%N [70]%N = true
+  /\ ignored_on_line [120; 32; 32; 35; 32; 110; 111; 113; 97; 32; 32; 35; 32; 110; 111; 113; 97; 58; 32; 69; 53; 48; 49]%N [70]%N = true
+  /\ ignored_on_line [120; 32; 32; 35; 32; 110; 111; 113; 97; 58; 32; 69; 53; 48; 49]%N [70]%N = false.
+Proof. repeat split; reflexivity. Qed.
+Print Assumptions several_comments.
 
 Example noqa_examples :
   ignored_on_line [120; 32; 32; 35; 32; 110; 111; 113; 97]%N [70]%N = true                       (* x  # noqa *)
